@@ -252,7 +252,7 @@ def run_shard(ctx):
                 pass
         return t
 
-    ctx.run_given(mk, ctx.budget(20000, 600000), salt=1)
+    ctx.run_given(mk, ctx.budget(20000, 400000), salt=1)
 
     def mk_setter():
         raws = st.sampled_from(["Total:  ", " lead", "a\tb", "x\ny", "a  b", "plain", "trail ", "  ", "\t", "a \t b", ""])
